@@ -16,11 +16,12 @@ pub struct HeaderKey(String);
 
 impl HeaderKey {
     pub fn new(key: &str) -> Result<Self, IggyError> {
+        let key = key.to_lowercase();
         if key.is_empty() || key.len() > 255 {
             return Err(IggyError::InvalidHeaderKey);
         }
 
-        Ok(Self(key.to_lowercase().to_string()))
+        Ok(Self(key))
     }
 
     pub fn as_str(&self) -> &str {
